@@ -50,6 +50,18 @@ Fixpoint pp_run (toks : list string) (acc : list string) (woken : bool) : option
   end.
 Definition pp_line (toks : list string) : option string := pp_run toks [] false.
 
+Fixpoint gate_line (toks : list string) (acc : list string) : option string :=
+  match toks with
+  | [] => Some (join " " ("held" :: rev ("released" :: acc)))
+  | t :: r =>
+      match bytes_of_tok t with
+      | None => None
+      | Some b =>
+          gate_line r ((match parse pp_cfg (of_bytes b) with
+                        | Ok _ => "ok" | Err e => show_errclass e | Panic => "panic" | Fuel => "fuel" end) :: acc)
+      end
+  end.
+
 Definition dispatch (kind : string) (args : list string) : string :=
   if String.eqb kind "p" then
     match args with
@@ -75,6 +87,18 @@ Definition dispatch (kind : string) (args : list string) : string :=
     match args with
     | _fam :: _ms :: toks =>
         match pp_line toks with
+        | Some l => out3 l l "-"
+        | None => BADARGS
+        end
+    | _ => BADARGS
+    end
+  else if String.eqb kind "gate" then
+    (* gate SEND hex...: frames parsed while a send of that kind is held inside Conn.WriteTo.  The model of Parse has
+       no input for a send in flight and no blocking step: its answer is the pure result class of every frame, and the
+       expectation (spec column) is that Parse returns for every one of them while the write is held. *)
+    match args with
+    | _send :: toks =>
+        match gate_line toks [] with
         | Some l => out3 l l "-"
         | None => BADARGS
         end
